@@ -75,7 +75,7 @@ func (b *Ring[T]) ReadMulti(n int) ([]T, error) {
 		if copied < n {
 			copy(data[copied:], b.buf[:n-copied])
 		}
-		b.r += n - copied
+		b.r = (b.r + n) % b.size
 	}
 
 	if b.r == b.size {
